@@ -63,9 +63,19 @@ def fresh_main_entry():
     sp, code = _MAIN['spec'], _MAIN['code']
 
     def entry():
-        ns = {'__name__': '__main__', '__file__': sp.origin, '__package__': 'python_minifier', '__spec__': sp,
-              '__loader__': sp.loader, '__doc__': None, '__cached__': None, '__builtins__': __builtins__}
-        exec(code, ns)
+        import types
+        mod = types.ModuleType('__main__')
+        mod.__dict__.update({'__file__': sp.origin, '__package__': 'python_minifier', '__spec__': sp, '__loader__': sp.loader,
+                             '__cached__': None, '__builtins__': __builtins__})
+        saved = sys.modules.get('__main__')
+        sys.modules['__main__'] = mod          # as `python -m` does: pickling of `__main__.<function>` works
+        try:
+            exec(code, mod.__dict__)
+        finally:
+            if saved is not None:
+                sys.modules['__main__'] = saved
+            else:
+                sys.modules.pop('__main__', None)
     return entry
 
 
@@ -209,6 +219,7 @@ class WorldJob(object):
         if pid == 0:
             try:
                 os.close(r)
+                os.setsid()          # own process group: whatever the dying command leaves behind is killed with it
                 rec = world.execute(self.entry, self.root, self.abs_cwd(), self.cmd.argv, self.full_env(env), self.cmd.stdin,
                                     self.listing_seed, faults, sink=wfd, real_crash=True)
                 wire.write_frame(wfd, {'c': 'end', 'exit': rec['exit'], 'exc': rec['exc']})
@@ -223,6 +234,10 @@ class WorldJob(object):
             data += c
         os.close(r)
         _, st = os.waitpid(pid, 0)
+        try:
+            os.killpg(pid, 9)        # orphans of the crashed command (pool workers) must not keep writing
+        except OSError:
+            pass
         events, std, fired, mods = [], [], [], []
         exit_status, exc, crashed = None, None, False
         for line in data.split(b'\n'):
